@@ -331,4 +331,12 @@ Fixpoint eval (e : env) (f : obj) : res obj :=
   | L (_ :: _) => Err ENotFunction
   end.
 
-Definition reload (v : obj) : res obj := bind (load_form v) (eval []).
+(* clpkg.go:208-630: the type-name symbols are constants of the common-lisp package bound to themselves *)
+Definition self_bound : list string :=
+  ["double-float"; "single-float"; "short-float"; "long-float"; "array"; "bignum"; "bit-vector"; "bit"; "byte";
+   "character"; "complex"; "file-stream"; "fixnum"; "float"; "hash-table"; "input-stream"; "integer"; "io-stream";
+   "list"; "cons"; "number"; "octet"; "octets"; "output-stream"; "package"; "ratio"; "rational"; "real"; "sequence";
+   "signed-byte"; "stream"; "string-stream"; "string"; "symbol"; "time"; "unsigned-byte"; "vector"].
+Definition global_env : env := map (fun s => (s, Sym s)) self_bound.
+
+Definition reload (v : obj) : res obj := bind (load_form v) (eval global_env).
